@@ -494,7 +494,10 @@ fn gen_outbound(kind: OutKind, ch: &mut Choices) -> Plan {
                 0 => ops.push(AppOp::PubQ0 { len }),
                 1 => ops.push(AppOp::PubQ1 { len, pid: None }),
                 2 => {
-                    ops.push(AppOp::PubQ2 { len, pid: None });
+                    // (caller-chosen identifiers collide now and then: the refused send must not touch the
+                    // exchange that owns the identifier)
+                    let pid = if matches!(kind, OutKind::C14 | OutKind::C06) && ch.chance(1, 4) { Some(1 + ch.choose(3) as u16) } else { None };
+                    ops.push(AppOp::PubQ2 { len, pid });
                     ops.push(if ch.chance(1, 3) { AppOp::DropReceipt } else { AppOp::Release });
                 }
                 // (a caller-chosen identifier may collide with one that is outstanding: the request is then
@@ -640,6 +643,31 @@ fn gen_outbound(kind: OutKind, ch: &mut Choices) -> Plan {
         plan.p_cancel = *ch.pick(&[0u32, 3]);
         plan.tags.push("motif:backpressure-free-window".into());
     }
+    if kind == OutKind::C13 && matches!(role, Role::S3 | Role::C3) && ch.chance(1, 5) {
+        // motif: write back-pressure ends while the dispatcher is paused because the service is not ready
+        // (receive window of one, its handler busy until the closing phase): the back-pressure-off
+        // notification must still be delivered
+        plan.senders.clear();
+        plan.senders.push((0..(2 + ch.choose(3))).map(|_| AppOp::PubQ0 { len: 40 }).collect());
+        for _ in 0..(1 + ch.choose(2)) {
+            plan.senders.push(vec![match ch.choose(3) {
+                0 => AppOp::Ready,
+                1 => AppOp::PubQ1 { len: 2, pid: None },
+                _ => AppOp::PubQ0 { len: 1 },
+            }]);
+        }
+        plan.peer.script.clear();
+        let p = mk_publish(role.ver(), ch, 120, 1, Some(220), 5);
+        plan.peer.script.push(step(Pkt::Publish(p), role.ver(), Pre::Connected));
+        plan.cfg.max_receive = 1;
+        plan.p_immediate = 0;
+        plan.p_hold = 1000;
+        plan.faults.p_wr_stall = *ch.pick(&[40u32, 150]);
+        plan.cfg.wr_hw = 64;
+        plan.cfg.wr_lw = 16;
+        plan.p_cancel = 0;
+        plan.tags.push("motif:backpressure-ends-while-not-ready".into());
+    }
     if kind == OutKind::C08 && role == Role::S5 && ch.chance(1, 6) {
         // motif: the sink is stopped while the io is still writable - a protocol handler fails in the
         // middle of a streamed publish, the Stop notification is being handled (gated), and the
@@ -747,6 +775,11 @@ fn gen_c12(ch: &mut Choices) -> Plan {
     // some handlers stay busy until the closing phase: the scripted part goes quiet with the limiter
     // part-filled, and whatever the completed handlers freed must have been used
     plan.p_hold = *ch.pick(&[0u32, 0, 350, 600]);
+    if ver == Ver::V5 {
+        // refused publishes (negative PUBACK / PUBREC) end their exchange: they must give their unit of
+        // Receive Maximum back
+        plan.w_outcome = *ch.pick(&[[1u32, 0, 0], [1, 0, 0], [6, 4, 0]]);
+    }
     // v5: does the peer respect the advertised Receive Maximum?
     let respect = ch.chance(2, 3);
     let n = 2 + ch.choose(9);
@@ -1456,6 +1489,18 @@ fn gen_c20(ch: &mut Choices) -> Plan {
             plan.cfg.client_keepalive_s = ka;
             plan.peer.auto_ack = ch.chance(3, 4);
             plan.tags.push("mode:client-keepalive".into());
+            if ch.chance(1, 2) {
+                // the application keeps the send window (of one) exhausted while the keep-alive task ticks;
+                // a silent peer leaves it exhausted for the whole run
+                match role {
+                    Role::C5 => plan.peer.connack_props.push((33, PropVal::U16(1))),
+                    _ => plan.cfg.max_send = 1,
+                }
+                plan.senders.push(vec![AppOp::PubQ1 { len: 2, pid: None }, AppOp::PubQ1 { len: 2, pid: None }]);
+                if ch.chance(1, 2) {
+                    plan.senders.push(vec![AppOp::Ready]);
+                }
+            }
             if ch.chance(1, 2) {
                 let t = *ch.pick(&[1000u64, 2500, 4000]);
                 timed_packet(&mut plan.peer.script, Pkt::Publish(mk_publish(ver, ch, 0, 0, None, 3)), ver, t, None);
